@@ -18,6 +18,7 @@ package vsched
 import (
 	"fmt"
 	"hash/fnv"
+	"os"
 	"runtime"
 	"runtime/debug"
 	"strings"
@@ -94,6 +95,7 @@ type Run struct {
 	freeMu   sync.Mutex
 	seq      int
 	fatal    string // scheduler-level hard error (bad choice, divergence)
+	optDesc  []string
 	// free-running mode: threads neither finished nor waiting
 	freeActive atomic.Int64
 }
@@ -188,6 +190,8 @@ func Point() {
 		r.point(nil, "", false)
 	}
 }
+
+var debugOpts = os.Getenv("VERIF_DEBUG") != ""
 
 // freeSpinLimit bounds waits in free-running mode.
 var freeSpinLimit = 200 * time.Millisecond
@@ -323,6 +327,13 @@ func (r *Run) pick() *thread {
 		return nil
 	}
 	sig := sigOf(running, runEn, opts)
+	if debugOpts {
+		ids := fmt.Sprintf("%d:", running)
+		for _, t := range opts {
+			ids += fmt.Sprint(t.id)
+		}
+		r.optDesc = append(r.optDesc, ids)
+	}
 	c := 0
 	if i < len(r.prefix) {
 		c = r.prefix[i]
@@ -443,6 +454,7 @@ type Outcome struct {
 	Log         []string
 	Parked      []string // threads parked in a benign Await at the end
 	Obs         string   // what Config.Observe returned (part of the digest)
+	optDesc     []string
 	Unstarted   []string
 	sigs        []uint32
 	nopts       []int32
@@ -470,6 +482,10 @@ func (o *Outcome) Digest() uint64 {
 	h.Write([]byte(o.Obs))
 	return h.Sum64()
 }
+
+// OptDesc returns the per-point "running:enabled ids" strings (only recorded
+// when VERIF_DEBUG is set).
+func (o *Outcome) OptDesc() []string { return o.optDesc }
 
 // Schedule renders the schedule as "thread×n" segments (for reports).
 func (o *Outcome) Schedule() string {
@@ -509,9 +525,9 @@ type Config struct {
 	// VerifyEvery: every n-th execution is replayed twice from its choice list
 	// and the digests compared (0 = never). A mismatch panics (harness error).
 	VerifyEvery int64
-	// Observe (optional) is called in controller context at the end of EVERY
-	// execution (also verification replays); its result is part of the digest
-	// that replay determinism is judged on.
+	// Observe (optional) is called in controller context at the end of every
+	// execution that is selected for replay verification and of its replays;
+	// its result is part of the digest replay determinism is judged on.
 	Observe func(o *Outcome) string
 	// DivergenceRetries: the code under test may contain nondeterminism the
 	// scheduler cannot own (Go map iteration order inside close()/gc loops).
@@ -550,10 +566,14 @@ type Explorer struct {
 	seen  map[uint64]struct{}
 	stop  bool
 	nexec int64
+	parentDesc string
 }
 
 func newRun(prefix []int, expect []uint32, horizon int) *Run {
+	const c = 160
 	return &Run{prefix: prefix, expect: expect, horizon: horizon,
+		choices: make([]int, 0, c), sigs: make([]uint32, 0, c), nopts: make([]int32, 0, c), pre: make([]int32, 0, c),
+		runEn: make([]bool, 0, c), who: make([]int32, 0, c), optsBuf: make([]*thread, 0, 8),
 		ctrl: make(chan struct{}, 1), exitC: make(chan struct{}, 8)}
 }
 
@@ -599,7 +619,7 @@ func tryExecute(setup func(r *Run), prefix []int, expect []uint32, horizon int, 
 			len(r.choices), len(r.prefix), r.prefix)
 	}
 	o := &Outcome{Status: r.status, Msg: r.msg, Stack: r.stack, Choices: r.choices, Points: len(r.choices),
-		Preemptions: r.preempts, sigs: r.sigs, nopts: r.nopts, pre: r.pre, runEn: r.runEn, who: r.who}
+		Preemptions: r.preempts, optDesc: r.optDesc, sigs: r.sigs, nopts: r.nopts, pre: r.pre, runEn: r.runEn, who: r.who}
 	for _, t := range r.threads {
 		o.names = append(o.names, t.name)
 		if !t.done {
@@ -621,7 +641,7 @@ func tryExecute(setup func(r *Run), prefix []int, expect []uint32, horizon int, 
 	r.wg.Wait()
 	r.aborting = false
 	if r.fatal != "" {
-		return nil, r.fatal
+		return nil, r.fatal + "\nlog of the diverging run: " + strings.Join(r.log, " | ") + fmt.Sprintf("\nwho=%v nopts=%v opts=%v", r.who, r.nopts, r.optDesc)
 	}
 	o.Log = r.log
 	if final != nil {
@@ -661,9 +681,12 @@ func (x *Explorer) exec(prefix []int, expect []uint32, final func(o *Outcome)) *
 			return o
 		}
 		if try >= x.cfg.DivergenceRetries || !strings.Contains(fatal, "NONDETERMINISM") {
-			panic(fatal)
+			panic(fmt.Sprintf("%s\n(after %d retries) parent: %s", fatal, try, x.parentDesc))
 		}
 		x.st.Retries++
+		if debugOpts {
+			fmt.Fprintln(os.Stderr, "retry", try, fatal[:120])
+		}
 	}
 }
 
@@ -700,8 +723,9 @@ func (x *Explorer) explore(prefix []int, expect []uint32, depth int, from int) {
 	}
 	var o *Outcome
 	if judged {
+		verify := x.cfg.VerifyEvery > 0 && (x.st.Executions+1)%x.cfg.VerifyEvery == 0
 		o = x.exec(prefix, expect, func(o *Outcome) {
-			if x.cfg.Observe != nil {
+			if verify && x.cfg.Observe != nil {
 				o.Obs = x.cfg.Observe(o)
 			}
 			if x.visit(o) {
@@ -732,7 +756,7 @@ func (x *Explorer) explore(prefix []int, expect []uint32, depth int, from int) {
 		if o.Preemptions > x.cfg.Bound {
 			panic("vsched: explorer produced a schedule above the preemption bound")
 		}
-		if x.cfg.VerifyEvery > 0 && x.st.Executions%x.cfg.VerifyEvery == 0 {
+		if verify {
 			d := o.Digest()
 			for k := 0; k < 2; k++ {
 				var o2 *Outcome
@@ -761,7 +785,12 @@ func (x *Explorer) explore(prefix []int, expect []uint32, depth int, from int) {
 	if x.stop {
 		return
 	}
+	desc := ""
+	if debugOpts {
+		desc = fmt.Sprintf("log=%s who=%v nopts=%v opts=%v", strings.Join(o.Log, " | "), o.who, o.nopts, o.optDesc)
+	}
 	for i := from; i < o.Points; i++ {
+		x.parentDesc = desc
 		n := int(o.nopts[i])
 		if n <= 1 {
 			continue
